@@ -13,6 +13,8 @@ import (
 	"github.com/resonatehq/resonate/internal/app/subsystems/aio/store/sqlite"
 	"github.com/resonatehq/resonate/internal/kernel/system"
 	"github.com/resonatehq/resonate/internal/vx"
+	"github.com/resonatehq/resonate/pkg/idempotency"
+	"github.com/resonatehq/resonate/pkg/promise"
 )
 
 // vhSetup: symbolic world for a coroutine harness. backend 0 = sqlite, 1 = postgres.
@@ -25,9 +27,73 @@ func vhSetup(flags int) vx.Coro {
 	vx.SetConfig(&system.Config{Url: vx.String("config.url"), PromiseBatchSize: vx.Opt("batch", 2), ScheduleBatchSize: vx.Opt("batch", 2),
 		TaskBatchSize: vx.Opt("batch", 2), TaskEnqueueDelay: vx.DurationMs("config.taskEnqueueDelay", 0, 1<<32), SignalTimeout: vx.DurationMs("config.signalTimeout", 0, 1<<32)})
 	vx.AutoO2("O2")
+	if vx.Opt("warm", 0) == 1 {
+		vhWarm()
+	}
 	c := vx.Coroutine(flags)
 	vx.Havoc()
 	return c
+}
+
+// vhWarm: an earlier stretch of the same server process's life, run before the checked request: a promise is
+// created, read, awaited and completed, a schedule is created, fires and is deleted, a lock is taken and released
+// and every background sweep runs once - all with arbitrary (symbolic) ids, templates, keys and data, on an empty
+// database. The database the checked request then meets is arbitrary (vx.Havoc), so whatever the process
+// remembers from this stretch - a cache keyed by an id, a retained buffer, a parsed template - is stale by
+// construction, and every obligation of the harness is thereby also an obligation that the request's behaviour
+// depends on the stored state and the request only.
+func vhWarm() {
+	vx.WarmBegin()
+	c := vx.Coroutine(vx.Sequential)
+	cfg, _ := c.Get("config").(*system.Config)
+	T := map[string]string{}
+	steps := vx.Opt("warmsteps", 99)
+	// one history is enough (the claim is existential in the earlier history): every step takes its
+	// ordinary successful course, other courses are pruned
+	need := func(ok bool) {
+		if !ok {
+			vx.Assume(false)
+		}
+	}
+	// (a step is skipped when the harness's bound gives its table no slot)
+	pid := vx.String("warm.promise")
+	if vx.NSlots("promises") > 0 && steps >= 1 {
+		ikey := idempotency.Key(vx.String("warm.ikey"))
+		r1, e1 := CreatePromise(c, &t_api.Request{Kind: t_api.CreatePromise, Tags: T, CreatePromise: &t_api.CreatePromiseRequest{Id: pid, IdempotencyKey: &ikey, Timeout: 1 << 62,
+			Param: promise.Value{Headers: vhWarmMap("warm.phdr"), Data: vhWarmBytes("warm.pdata")}, Tags: vhWarmMap("warm.tags")}})
+		need(e1 == nil && r1.CreatePromise.Status == t_api.StatusCreated)
+		r2, e2 := ReadPromise(c, &t_api.Request{Kind: t_api.ReadPromise, Tags: T, ReadPromise: &t_api.ReadPromiseRequest{Id: pid}})
+		need(e2 == nil && r2.ReadPromise.Status == t_api.StatusOK)
+		r3, e3 := CompletePromise(c, &t_api.Request{Kind: t_api.CompletePromise, Tags: T, CompletePromise: &t_api.CompletePromiseRequest{Id: pid, IdempotencyKey: &ikey, State: promise.Resolved,
+			Value: promise.Value{Headers: vhWarmMap("warm.vhdr"), Data: vhWarmBytes("warm.vdata")}}})
+		need(e3 == nil && r3.CompletePromise.Status == t_api.StatusCreated)
+		_, _ = TimeoutPromises(cfg, T)(c)
+	}
+	if vx.NSlots("schedules") > 0 && vx.NSlots("promises") > 0 && steps >= 2 {
+		sid, tmpl := vx.String("warm.schedule"), vx.String("warm.template")
+		r1, e1 := CreateSchedule(c, &t_api.Request{Kind: t_api.CreateSchedule, Tags: T, CreateSchedule: &t_api.CreateScheduleRequest{Id: sid, Cron: vx.String("warm.cron"), Tags: map[string]string{},
+			PromiseId: tmpl, PromiseTimeout: 1000, PromiseParam: promise.Value{Headers: vhWarmMap("warm.shdr"), Data: vhWarmBytes("warm.sdata")}, PromiseTags: vhWarmMap("warm.stags")}})
+		need(e1 == nil && r1.CreateSchedule.Status == t_api.StatusCreated)
+		vx.Assume(vx.TmplExpand(tmpl, sid, vx.Itoa(r1.CreateSchedule.Schedule.NextRunTime)) != pid) // the occurrence's promise is new
+		n0 := vx.NYields()
+		_, _ = SchedulePromises(cfg, T)(c)
+		need(vx.NYields() >= n0+2) // the sweep found the schedule due and fired it
+		r2, e2 := DeleteSchedule(c, &t_api.Request{Kind: t_api.DeleteSchedule, Tags: T, DeleteSchedule: &t_api.DeleteScheduleRequest{Id: sid}})
+		need(e2 == nil && r2.DeleteSchedule.Status == t_api.StatusNoContent)
+	}
+	if vx.NSlots("locks") > 0 && steps >= 3 {
+		rid, eid := vx.String("warm.resource"), vx.String("warm.execution")
+		r1, e1 := AcquireLock(c, &t_api.Request{Kind: t_api.AcquireLock, Tags: T, AcquireLock: &t_api.AcquireLockRequest{ResourceId: rid, ExecutionId: eid, ProcessId: vx.String("warm.process"), Ttl: 1 << 40}})
+		need(e1 == nil && r1.AcquireLock.Status == t_api.StatusCreated)
+		r2, e2 := ReleaseLock(c, &t_api.Request{Kind: t_api.ReleaseLock, Tags: T, ReleaseLock: &t_api.ReleaseLockRequest{ResourceId: rid, ExecutionId: eid}})
+		need(e2 == nil && r2.ReleaseLock.Status == t_api.StatusNoContent)
+		_, _ = TimeoutLocks(cfg, T)(c)
+	}
+	if vx.NSlots("tasks") > 0 && steps >= 4 {
+		_, _ = EnqueueTasks(cfg, T)(c)
+		_, _ = TimeoutTasks(cfg, T)(c)
+	}
+	vx.WarmEnd()
 }
 
 func vhB2I(b bool) int64 { return vx.IteInt64(b, 1, 0) }
@@ -91,4 +157,18 @@ func VXProcess(c vx.Coro, sqe *bus.SQE[t_api.Request, t_api.Response]) (res *t_a
 	a.EnqueueSQE(sqe)
 	s.Tick(vx.Tick())
 	return
+}
+
+// vhWarmMap: a non-nil map with one entry of arbitrary value
+func vhWarmMap(name string) map[string]string {
+	return map[string]string{"warm": vx.String(name + ".value")}
+}
+
+// vhWarmBytes: arbitrary non-nil bytes
+func vhWarmBytes(name string) []byte {
+	b := vx.Bytes(name)
+	if b == nil {
+		vx.Assume(false)
+	}
+	return b
 }
